@@ -98,6 +98,7 @@ func Load(repo string) (*Program, error) {
 	for _, sp := range prog.AllPackages() {
 		p.SSAPkg[sp.Pkg.Path()] = sp
 	}
+	buildStaticSites(p)
 	p.LoadS = time.Since(t0).Seconds()
 	return p, nil
 }
